@@ -22,6 +22,7 @@ from queue import Empty, Full   # multiprocessing.queues.Empty IS queue.Empty: c
 
 
 class World(object):
+    __deepcopy__ = lambda self, memo: self
     def __init__(self, s):
         self.s = s
         self.clock = 0.0
@@ -35,6 +36,7 @@ W = [None]   # the world of the current execution
 
 
 class VQueue(object):
+    __deepcopy__ = lambda self, memo: self   # an OS-level handle: parent and forked child share it
     def __init__(self, *a, **k):
         self.w = W[0]
         self.items = []
@@ -89,6 +91,7 @@ class VQueue(object):
 
 
 class VEvent(object):
+    __deepcopy__ = lambda self, memo: self
     def __init__(self, *a, **k):
         self.w = W[0]
         self.flag = False
@@ -111,7 +114,12 @@ class VEvent(object):
         return True
 
 
+def _shared_by_fork(self, memo):
+    return self
+
+
 class VProcess(object):
+    __deepcopy__ = _shared_by_fork
     def __init__(self, group=None, target=None, name=None, args=(), kwargs=None, daemon=None):
         self.w = W[0]
         self.target, self.args, self.kwargs = target, args, kwargs or {}
@@ -130,8 +138,13 @@ class VProcess(object):
         w.procs.append(self)
         target = self.target
         if hasattr(target, '__self__') and hasattr(target, '__func__'):
-            # fork: the child works on a copy of the parent's object graph root (handles are shared, later rebinding is not)
-            target = target.__func__.__get__(copy.copy(target.__self__))
+            # fork: the child works on its own copy of the parent's object graph - however deeply the library nests its state - while
+            # the OS-level handles in it (queues, events, processes) stay shared (they copy to themselves, see _shared_by_fork)
+            try:
+                child_self = copy.deepcopy(target.__self__)
+            except Exception:
+                child_self = copy.copy(target.__self__)   # (an attribute that cannot be copied: the old one-level approximation)
+            target = target.__func__.__get__(child_self)
 
         def body():
             try:
